@@ -98,6 +98,29 @@ mod parse {
     pub use crate::token::parse_proj;
 }
 
+/// Read-only enumerations of otherwise private tables, for external
+/// verification harnesses. Off by default.
+#[cfg(feature = "verif_hooks")]
+pub mod verif_hooks {
+    /// Names of all built-in operators
+    pub fn builtin_operator_names() -> Vec<&'static str> {
+        crate::inner_op::verif_builtin_names()
+    }
+    /// The built-in ellipsoid table as (name, a, ax, rf, description)
+    pub fn ellipsoid_table(
+    ) -> Vec<(&'static str, &'static str, &'static str, &'static str, &'static str)> {
+        crate::ellipsoid::verif_ellipsoid_table()
+    }
+    /// (linear, angular) unit tables as (name, published factor text, multiplier)
+    #[allow(clippy::type_complexity)]
+    pub fn unit_tables() -> (
+        Vec<(&'static str, &'static str, f64)>,
+        Vec<(&'static str, &'static str, f64)>,
+    ) {
+        crate::inner_op::verif_units()
+    }
+}
+
 use thiserror::Error;
 /// The *Rust Geodesy* error messaging enumeration. Badly needs reconsideration
 #[derive(Error, Debug)]
